@@ -10,6 +10,7 @@ Oracle: after each pilot update: tasks bound to a pilot that just became final
 from hypothesis import strategies as st
 
 from . import boot                                    # noqa: F401
+from . import c13_close
 from .runner import CaseResult, Part
 from .hollow import HollowSession, HollowPmgr, hollow_tmgr, real_pilot
 
@@ -78,10 +79,13 @@ def cases(draw):
 
 
 def parts(tier):
-    return [Part('pilot_end_histories', cases(), quick=600, thorough=6000)]
+    return [Part('pilot_end_histories', cases(), quick=600, thorough=6000),
+            Part('pilot_manager_closed', c13_close.cases(), quick=200, thorough=2000)]
 
 
 def run_case(case):
+    if case.get('kind') == 'pmgr_close':
+        return c13_close.run(case)
     res  = CaseResult()
     sess = HollowSession()
     tm   = hollow_tmgr(sess)
